@@ -71,6 +71,10 @@ class Case(object):
         that are not exceptions) adds the layout class."""
         return len_class(n)
 
+    def c03class(self, op, n):
+        """Parameter class for C03 signatures."""
+        return self.pclass(n, False, op)
+
     def area_map(self):
         """{image key: frozenset(addresses)} of the NDEF area (cached)"""
         m = getattr(self, '_area_map', None)
@@ -206,11 +210,17 @@ class TlvCase(Case):
             return 'tlv-prefix'
         return 'ndef-area'
 
+    def c03class(self, op, n):
+        if op == 'write':
+            return '%s,rsv=%s' % (len_class(n), self.pc['rsv'])
+        if self.kind == 'T1':       # product specific format(): CC and TLVs
+            return self.pc['product']   # are re-created whatever was there
+        return 'rsv=%s' % self.pc['rsv']
+
     def pclass(self, n, detail=False, op='write'):
         s = len_class(n)
         if detail:
-            s += ',%s,rsv=%s,o%%%d=%d' % (self.pc['mem'], self.pc['rsv'],
-                                          self.unit, self.pc['o'] % self.unit)
+            s += ',%s,rsv=%s' % (self.pc['mem'], self.pc['rsv'])
         return s
 
 
@@ -376,6 +386,9 @@ def t2_cases(tier, sizes=None, full_align=True):
                     out.append(t2_case(D, product, nulls, 'afterL', 1))
             for fill in (2, 3, 6):
                 out.append(t2_case(D, product, fill=fill))
+            if D == 504:        # avail around the 1-byte / 3-byte length switch
+                for fill in range(254, 261):
+                    out.append(t2_case(D, product, fill=fill))
     return out
 
 
@@ -398,6 +411,9 @@ def t1_cases(tier):
                 out.append(t1_case(size, hr1, nulls, 'afterL', 1))
         for fill in (2, 3, 6):
             out.append(t1_case(size, hr1, fill=fill))
+        if size == 512:
+            for fill in range(254, 261):
+                out.append(t1_case(size, hr1, fill=fill))
     return out
 
 
@@ -452,8 +468,7 @@ class T3Case(Case):
     def pclass(self, n, detail=False, op='write'):
         s = 'len=0' if n == 0 else 'len>0'
         if detail:
-            s += ',nmaxb%s,nbr=%d,nbw=%d' % (
-                '>255' if self.nmaxb > 255 else '<=255', self.nbr, self.nbw)
+            s += ',nmaxb%s' % ('>255' if self.nmaxb > 255 else '<=255')
         return s
 
 
@@ -471,7 +486,8 @@ def t3_cases(tier):
             for nbw in nbws:
                 if nmaxb > 255 and nbw > 12:
                     continue        # 13 three-byte elements exceed a frame
-                out.append(T3Case(nbr, nbw, nmaxb))
+                # physical blocks behind Nmaxb: one for odd Nbr, none for even
+                out.append(T3Case(nbr, nbw, nmaxb, spare=nbr % 2))
     blocks = range(1, 65) if tier == 'thorough' else (1, 2, 3, 4, 5, 8, 15, 16,
                                                       17, 31, 32, 33, 63, 64)
     for nb in blocks:
@@ -525,7 +541,7 @@ class T4Case(Case):
         flags = []
         if n == 0:
             flags.append('len=0')
-        if op in ('read', 'readback'):
+        if op == 'read':
             if self.mle > 256 and n > 256:
                 flags.append('MLe>256,len>256')
         else:
@@ -533,9 +549,9 @@ class T4Case(Case):
                 flags.append('MLc>255,len+nlen>255')
             if self.mlc < nl and n > 0:
                 flags.append('MLc<nlen_size,len>0')
-        s = ','.join(flags) or 'regular'
-        if detail:
-            s += ',v%02X' % self.mapping
+        s = ','.join(flags)
+        if not s:
+            s = 'regular' + (',v%02X' % self.mapping if detail else '')
         return s
 
 
@@ -672,8 +688,11 @@ class Findings(object):
         self.obs = set()
 
     def fail(self, prop, op, n, what, detail=False, **extra):
-        sig = '%s|%s|%s|%s' % (self.case.kind, op,
-                               self.case.pclass(n, detail, op), what)
+        if prop == 'C03':
+            cls = self.case.c03class(op, n)
+        else:
+            cls = self.case.pclass(n, detail, op)
+        sig = '%s|%s|%s|%s' % (self.case.kind, op, cls, what)
         d = dict(self.base)
         d.update(extra)
         self.items[prop].append((sig, d))
@@ -709,7 +728,7 @@ def c03_oracle(case, f, op, n, before, after, writes, damage,
             bad = not any(a in ak for a in range(w.start, w.end))
         if bad:
             cls = case.addr_class(w.area, w.start)
-            if cls not in useen:
+            if cls not in useen and cls not in seen:    # else: same damage
                 useen.add(cls)
                 f.fail('C03', op, n, 'unit-outside-area:' + cls, detail=True,
                        write=[w.area, w.start, w.end, w.data])
@@ -792,12 +811,12 @@ def check_write(case, prev, pattern, n):
         clf2, tag2 = case.activate(sim)
         nd2 = tag2.ndef if tag2 is not None else None
     except Exception as e:
-        f.fail('C01', 'readback', n, sig_exc(e), exc=repr(e))
+        f.fail('C01', 'read', n, sig_exc(e), exc=repr(e), stage='read-back')
         return f
     if nd2 is None:
-        f.fail('C01', 'readback', n, 'ndef-none', detail=True)
+        f.fail('C01', 'read', n, 'ndef-none', detail=True, stage='read-back')
     elif nd2.octets != msg or nd2.length != n:
-        f.fail('C01', 'readback', n, 'mismatch', detail=True,
+        f.fail('C01', 'read', n, 'readback-mismatch', detail=True,
                got_len=nd2.length, got=nd2.octets[:64])
     f.obs.add('n==cap' if n == cap else ('n==0' if n == 0 else 'mid'))
     return f
